@@ -16,7 +16,8 @@ BATTERY = "c07_battery.py"
 
 
 def make_specs():
-    out = [ReadEvents(IRWorld(), PROP, want=("safety",))]
+    # "makes later changes in the tree go unreported": exception freedom AND the watch-map contracts (C02's) of the reader
+    out = [ReadEvents(IRWorld(), PROP, want=("safety", "maps"))]
     G = c08.GWorld()
     out += [c08.GroupEvents(G, PROP), c08.BufferRun(G, PROP)]
     out.append(inotify_emitter.QueueEvents(inotify_emitter.World(), PROP, want=("root",)))
@@ -32,6 +33,11 @@ def make_specs():
         sp.prop = PROP
         out.append(sp)
     return out
+
+
+def lemmas():
+    from specs.inotify_read import string_lemmas
+    return string_lemmas()
 
 
 EXPECTED_CLAUSES = ["read_events.no-KeyError[self._path_for_wd[wd]]", "read_events.no-KeyError[self._path_for_wd.pop(wd)]", "read_events.post[every live kernel descriptor has a path entry]", "read_events.no-KeyError[self._wd_for_path.pop(_path)]",
